@@ -73,6 +73,16 @@ Section SumFacts.
     mass_total O nb ne nq phi (affine_dx O absdet W)
     = rsum O (seq 0 ne) (fun e => absdet e * rsum O (seq 0 nq) W).
   Proof. intros PU. rewrite mass_sum_is_measure by exact PU. apply affine_dx_total. Qed.
+  (* affine cells, the same reference shape functions phi_i(x_q) on every cell: the mass entry summed over the
+     cells is  sum_e |detA_e| * (sum_q phi_i(x_q) phi_j(x_q) W_q)  — the reference (quadrature) mass entry
+     scaled by the Jacobian factor of each cell *)
+  Theorem affine_mass_factorises (ne nq : nat) (phi : nat -> nat -> R) (absdet : nat -> R) (W : nat -> R) i j :
+    mass_entry O ne nq (fun i e q => phi i q) (affine_dx O absdet W) i j
+    = rsum O (seq 0 ne) (fun e => absdet e * rsum O (seq 0 nq) (fun q => phi i q * phi j q * W q)).
+  Proof.
+    unfold mass_entry, integrate, affine_dx. apply rsum_ext. intros e _.
+    rewrite <- rsum_mul_l. apply rsum_ext. intros q _. ring.
+  Qed.
 End SumFacts.
 
 Lemma exp_add_sum : forall a b, length a = length b -> list_sum (exp_add a b) = list_sum a + list_sum b.
